@@ -469,7 +469,7 @@ def gen_lang(rng, n):
     ms = matrices(rng, n, exhaustive3=True)
     # a few rank-3 cases through the diagram route as well (the exhaustive block keeps the matrix route, so that every
     # labelling is really visited)
-    ms += [rng.choice(R3_LABELLED) for _ in range(25)]
+    ms += [rng.choice(R3_LABELLED) for _ in range(15)]
     for idx, M in enumerate(ms):
         # both constructor routes: the solver works on the matrix / generator order the *input* prescribes
         spec = X.rand_spec(rng, M, allow_multichar=False) if (idx >= nexh and rng.random() < 0.6) else \
@@ -572,6 +572,14 @@ def run_lang(inp):
     if done and (A_geo_e != ev_geo or A_lex_e != ev_lex):
         bad["even"] = {"geo_diff": sorted(A_geo_e ^ ev_geo)[:3], "lex_diff": sorted(A_lex_e ^ ev_lex)[:3]}
     # the library's own enumeration agrees with the direct traversal (single-character names only)
+    # G13 entry points: the module-level function on the Coxeter matrix is the same language as the method
+    for lexflag, a in ((False, geo), (True, lex)):
+        tw = CA.generate_automaton_coxeter_matrix(np.array(M), lexflag)
+        if minimal_form(graph_of(tw), start_of(tw)) != minimal_form(graph_of(a, names), start_of(a)):
+            bad["module_level_twin"] = {"lex_reduced": lexflag}
+    # G14 boundaries: maxlen 0 and the empty word
+    if list(lex.enumerate_words(0)) != [""] or not lex.accepts([]) or not geo.accepts([]):
+        bad["empty_word"] = True
     # documented defaults: automaton() is the shortlex automaton, not the even-length variant
     dflt = G.automaton()
     if accepted(dflt, names, min(L, 5)) != {w for w in A_lex if len(w) <= min(L, 5)}:
@@ -656,7 +664,7 @@ def judge_lang(inp, obs, lr):
     if obs["bad"]:
         if lr:
             obs["bad"]["geodesic"]["certificate"]["lean_checkCert"] = lr[0]
-        pref = ["geodesic", "shortlex", "even", "growth", "injective", "length", "accepts", "enumerate_words", "enumerate_words_even", "defaults", "api_image"]
+        pref = ["geodesic", "shortlex", "even", "growth", "injective", "length", "accepts", "enumerate_words", "enumerate_words_even", "module_level_twin", "empty_word", "defaults", "api_image"]
         what = sorted(obs["bad"], key=lambda k: pref.index(k) if k in pref else 99)[0]
         return {"expected": {"geodesic": "accepted words = reduced words", "shortlex": "accepted = least reduced expression of each element",
                              "even": "even automaton = even-length accepted words", "growth": "counts = growth series",
@@ -942,14 +950,159 @@ def judge_naming(inp, obs, lr):
     return None
 
 
+# ---- size boundaries of the construction: number of small roots across 32 / 64 / 128 -------------------------------------
+# fixed matrices (rank 5-7, labels 2..6 and infinity) with their number of small roots, found by a search in the harness;
+# their automata have a few hundred to two thousand states and are built in < 1 s
+SIZE_TABLE = {
+    "33-64": [(33, [[1, 5, 5, 6, 2], [5, 1, 5, 5, 5], [5, 5, 1, 3, 2], [6, 5, 3, 1, 3], [2, 5, 2, 3, 1]]),
+              (33, [[1, 6, 5, 5, 2], [6, 1, 6, 3, 3], [5, 6, 1, 0, 5], [5, 3, 0, 1, 5], [2, 3, 5, 5, 1]]),
+              (35, [[1, 4, 2, 3, 0], [4, 1, 3, 2, 3], [2, 3, 1, 4, 5], [3, 2, 4, 1, 6], [0, 3, 5, 6, 1]]),
+              (45, [[1, 5, 5, 2, 5], [5, 1, 5, 3, 3], [5, 5, 1, 5, 2], [2, 3, 5, 1, 5], [5, 3, 2, 5, 1]]),
+              (53, [[1, 5, 2, 2, 2], [5, 1, 3, 2, 2], [2, 3, 1, 5, 2], [2, 2, 5, 1, 3], [2, 2, 2, 3, 1]])],
+    "65-128": [(65, [[1, 4, 6, 0, 3, 5], [4, 1, 5, 5, 2, 0], [6, 5, 1, 5, 3, 5], [0, 5, 5, 1, 2, 3], [3, 2, 3, 2, 1, 2], [5, 0, 5, 3, 2, 1]]),
+               (65, [[1, 6, 4, 2, 5, 3], [6, 1, 5, 5, 3, 2], [4, 5, 1, 5, 3, 2], [2, 5, 5, 1, 5, 5], [5, 3, 3, 5, 1, 6], [3, 2, 2, 5, 6, 1]]),
+               (66, [[1, 3, 5, 5, 2, 5], [3, 1, 6, 5, 5, 6], [5, 6, 1, 3, 2, 2], [5, 5, 3, 1, 6, 5], [2, 5, 2, 6, 1, 2], [5, 6, 2, 5, 2, 1]]),
+               (67, [[1, 5, 5, 3, 3, 3], [5, 1, 4, 5, 2, 2], [5, 4, 1, 3, 5, 2], [3, 5, 3, 1, 5, 3], [3, 2, 5, 5, 1, 5], [3, 2, 2, 3, 5, 1]]),
+               (69, [[1, 3, 2, 6, 3], [3, 1, 5, 2, 2], [2, 5, 1, 3, 5], [6, 2, 3, 1, 2], [3, 2, 5, 2, 1]]),
+               (95, [[1, 5, 5, 6, 2, 4, 3], [5, 1, 2, 3, 2, 5, 4], [5, 2, 1, 3, 5, 6, 2], [6, 3, 3, 1, 0, 3, 2], [2, 2, 5, 0, 1, 3, 5],
+                     [4, 5, 6, 3, 3, 1, 5], [3, 4, 2, 2, 5, 5, 1]]),
+               (73, [[1, 5, 2, 6, 0, 5, 2], [5, 1, 5, 6, 6, 5, 0], [2, 5, 1, 5, 5, 3, 5], [6, 6, 5, 1, 5, 0, 6], [0, 6, 5, 5, 1, 5, 4],
+                     [5, 5, 3, 0, 5, 1, 3], [2, 0, 5, 6, 4, 3, 1]])],
+    "129+": [(137, [[1, 2, 3, 2, 5, 5, 5], [2, 1, 5, 2, 3, 5, 3], [3, 5, 1, 5, 3, 5, 2], [2, 2, 5, 1, 5, 3, 5], [5, 3, 3, 5, 1, 5, 3],
+                    [5, 5, 5, 3, 5, 1, 5], [5, 3, 2, 5, 3, 5, 1]])],
+}
+
+
+def gen_size(rng, n):
+    if n < 3:
+        plan = ["65-128", rng.choice(["33-64", "129+"])][:max(n, 1)]
+    else:
+        plan = ["33-64", "65-128", "129+"] * (n // 3)
+    for bracket in plan:
+        for _ in range(1):
+            k, M = rng.choice(SIZE_TABLE[bracket])
+            p = list(range(len(M)))
+            rng.shuffle(p)
+            yield {"bracket": bracket, "nroots": k, "M": [[M[p[i]][p[j]] for j in range(len(M))] for i in range(len(M))],
+                   "seed": rng.randrange(10 ** 9)}
+
+
+def _reflections(M):
+    """s_k on coordinates with respect to the simple roots (column action): the exact-arithmetic-free but independent reference
+    `l(w s_k) > l(w)  iff  w(alpha_k) is a positive root`"""
+    n = len(M)
+    B = np.array([[-math.cos(math.pi / m) if m > 0 else -1.0 for m in row] for row in M])
+    S = []
+    for k in range(n):
+        A = np.eye(n)
+        A[k, :] -= 2 * B[k, :]
+        S.append(A)
+    return S
+
+
+def _positive(col):
+    sc = max(1.0, float(np.max(np.abs(col))))
+    return bool(np.all(col > -1e-7 * sc))
+
+
+def run_size(inp):
+    import random as _r
+    from geometry_tools import coxeter
+    M = inp["M"]
+    n = len(M)
+    G = coxeter.CoxeterGroup(matrix=np.array(M))
+    names = list(G.ordered_gens)
+    done, auts = X.limited(20.0, lambda: (G.automaton(shortlex=False), G.automaton(shortlex=True)))
+    if not done:
+        return {"slow": True}
+    geo, lex = auts
+    S = _reflections(M)
+    bad = {}
+    # (1) finite standard parabolic subgroups of rank 2 and 3: exhaustive comparison up to beyond their longest element
+    checked = 0
+    for r in (2, 3):
+        for sub in itertools.combinations(range(n), r):
+            Bs = np.array([[-math.cos(math.pi / M[i][j]) if M[i][j] > 0 else -1.0 for j in sub] for i in sub])
+            if np.min(np.linalg.eigvalsh(Bs)) < 1e-9:
+                continue                                   # infinite subgroup
+            # reduced words of the subgroup by the root criterion (depth-first, the group is finite)
+            reduced, stack = set(), [((), np.eye(n))]
+            while stack:
+                w, A = stack.pop()
+                reduced.add(w)
+                for k in sub:
+                    if _positive(A[:, k]):
+                        stack.append((w + (k,), A @ S[k]))
+            maxlen = max(len(w) for w in reduced)
+            # what the automata accept over these letters, one letter beyond the longest element
+            for name_, aut, ref in (("geo", geo, reduced), ("lex", lex, None)):
+                acc, st = set(), [(start_of(aut), ())]
+                while st:
+                    v, w = st.pop()
+                    acc.add(w)
+                    if len(w) > maxlen:
+                        continue
+                    for k in sub:
+                        t = aut.graph_dict.get(v, {}).get(names[k])
+                        if t is not None:
+                            st.append((t, w + (k,)))
+                if ref is None:
+                    # shortlex: the least reduced word of every element (elements = classes of reduced words with equal image)
+                    cls = {}
+                    for w in reduced:
+                        A = np.eye(n)
+                        for k in w:
+                            A = A @ S[k]
+                        key = tuple(np.round(A, 5).reshape(-1) + 0.0)
+                        if key not in cls or w < cls[key]:
+                            cls[key] = w
+                    ref = set(cls.values())
+                if acc != ref:
+                    bad.setdefault(name_ + "_parabolic", {"subgroup": list(sub), "accepted_not_expected": sorted(acc - ref)[:2],
+                                                          "expected_not_accepted": sorted(ref - acc)[:2]})
+            checked += 1
+    # (2) random long words over all generators, geodesic automaton against the root criterion
+    rng = _r.Random(inp["seed"])
+    wrong = []
+    for _ in range(150):
+        w, A, red = [], np.eye(n), True
+        for _step in range(rng.choice([12, 18, 25])):
+            good = [k for k in range(n) if _positive(A[:, k])]
+            k = rng.choice(good) if (good and rng.random() < 0.93) else rng.randrange(n)
+            red = red and _positive(A[:, k])
+            w.append(k)
+            A = A @ S[k]
+            if not red:
+                break
+        if geo.accepts([names[k] for k in w]) != red:
+            wrong.append([w, red])
+    if wrong:
+        bad["geo_long_words"] = wrong[:3]
+    return {"bad": bad, "parabolics_checked": checked, "states": [len(geo.graph_dict), len(lex.graph_dict)]}
+
+
+def judge_size(inp, obs, lr):
+    tags = {"bracket": inp["bracket"], "nroots": inp["nroots"]}
+    if "exc" in obs:
+        return {"expected": "automata", "observed": obs, "tags": {**tags, "exc": obs["exc"]}}
+    if obs.get("slow"):
+        return {"expected": "automata of a group with %d small roots within 20 s CPU (< 1 s on a healthy tree)" % inp["nroots"],
+                "observed": "not finished", "tags": {**tags, "slow": True}}
+    if obs["bad"]:
+        return {"expected": "finite standard parabolic subgroups: accepted words = reduced words (geodesic) / least reduced words (shortlex), "
+                            "up to beyond the longest element; long random words: accepted iff reduced (root criterion)",
+                "observed": obs["bad"], "tags": {**tags, "what": sorted(obs["bad"])[0]}}
+    return None
+
+
 CLAUSES = [
     Clause("automaton_corr", "corr", gen_aut, run_aut, judge_aut, lean=lean_aut,
            site="coxeter.CoxeterGroup.automaton",
-           budget={"quick": 100, "thorough": 1000},
+           budget={"quick": 70, "thorough": 1000},
            what="small roots (vectors, neighbours) and automaton (up to BFS renumbering) vs the Lean model over Q; all rank-2/3 "
                 "matrices over {2..7,inf} up to relabelling (inf written 0/-1/-3), samples of rank 4-5, both constructor routes"),
     Clause("even_corr", "corr", gen_even, run_even, judge_even, lean=lean_even,
-           site="coxeter.CoxeterGroup.automaton(even_length=True) / fsa.automaton_multiple", budget={"quick": 80, "thorough": 800},
+           site="coxeter.CoxeterGroup.automaton(even_length=True) / fsa.automaton_multiple", budget={"quick": 50, "thorough": 800},
            what="even_automaton of the implementation's table vs Lean evenAutomaton (up to BFS renumbering)"),
     Clause("rank2_hypothesis_oracle", "oracle", gen_r2, run_r2, judge_r2, site="coxeter.CoxeterGroup.automaton (rank 2)",
            budget={"quick": 14, "thorough": 14},
@@ -957,18 +1110,23 @@ CLAUSES = [
                 "m = 2..12 and infinity (0/-1/-2), through the public API; whether the internal small-root table has the assumed "
                 "DihedralNb structure is recorded as supporting evidence only"),
     Clause("session_oracle", "oracle", gen_session, run_session, judge_session, site="coxeter.CoxeterGroup.automaton (sessions)",
-           budget={"quick": 150, "thorough": 1500},
+           budget={"quick": 100, "thorough": 1500},
            what="generic defences G1-G4: interleaved automaton requests (shortlex x even_length) on 2-3 groups of rank 2-3 built from "
                 "buffers, views, tuples, float/int32 arrays and one-shot diagram iterables that the caller edits afterwards; returned "
                 "automata are edited by the caller (delete_vertex, rename, clear, add_edges); every answer equals a FRESH group's"),
     Clause("naming_oracle", "oracle", gen_naming, run_naming, judge_naming, site="coxeter.CoxeterGroup.automaton / fsa.rename_generators",
-           budget={"quick": 108, "thorough": 1500},
+           budget={"quick": 63, "thorough": 1500},
            what="groups built from diagrams with every kind of generator naming (integers overlapping 0..n-1 in permuted / shifted / "
                 "reversed order, disjoint integers, tuples, multi-character strings, permuted default letters, names equal to another "
                 "generator's other case) x every automaton option, judged by the independent language reference through accepts() and "
                 "follow_word() with list words, enumerate_words (also with_states) and the even variant"),
+    Clause("size_boundary_oracle", "oracle", gen_size, run_size, judge_size, site="coxeter.CoxeterGroup.automaton (many small roots)",
+           budget={"quick": 2, "thorough": 30},
+           what="size boundaries of the construction: fixed rank 5-7 groups whose number of small roots crosses 32 / 64 / 128 (33..137), "
+                "generators permuted; exhaustive comparison on every finite standard parabolic subgroup of rank 2-3 (up to one letter beyond "
+                "its longest element, e.g. length 16 in H3) and 150 random words of length up to 25 against the root criterion"),
     Clause("language_oracle", "oracle", gen_lang, run_lang, judge_lang, lean=lean_lang,
-           site="coxeter.CoxeterGroup.automaton", budget={"quick": 400, "thorough": 650},
+           site="coxeter.CoxeterGroup.automaton", budget={"quick": 385, "thorough": 650},
            what="BOUNDED TEST of the unproved clause: accepted words up to length L vs independent Tits braid-move solver and "
                 "canonical-representation enumeration: geodesic = reduced, shortlex = least reduced expression (one per element), "
                 "even variants, growth counts, injectivity of canonical images"),
